@@ -1,5 +1,147 @@
 #!/usr/bin/env python3
-"""setup: warm per-crate Kani build caches (optional; checks work without them)."""
+"""setup_cmd: validate the dependency models natively and warm the Kani build caches.
+
+1. indexmap + bytes models: the repository's own test-suites (`cargo test --workspace`) are run
+   against them in a scratch copy of /repo and must pass (this is how the models are validated).
+2. tokio model: a differential test drives the model and the REAL tokio channels with the same
+   operation sequences (mpsc bounded / oneshot: try_send, try_reserve, permits, try_recv, close,
+   drops) and compares every result.
+3. warm one Kani target directory per (crate, features) under /verif/.cache so that checks only
+   recompile the overlay crate.
+Everything here is optional for the checks (they rebuild what is missing); a failure of step 1 or
+2 is fatal because it would invalidate the trusted base.
+"""
+import os
+import shutil
+import subprocess
 import sys
-print("setup: nothing to build yet")
-sys.exit(0)
+import time
+from pathlib import Path
+
+VERIF = Path("/verif")
+REPO = Path("/repo")
+sys.path.insert(0, str(VERIF / "lib"))
+ENV = dict(os.environ)
+ENV["CARGO_NET_OFFLINE"] = "true"
+ENV.pop("RUSTUP_TOOLCHAIN", None)
+
+
+def log(*a):
+    print("[setup]", *a, flush=True)
+
+
+def validate_models():
+    root = Path("/var/tmp/turmoil-verif-validate")
+    if root.exists():
+        shutil.rmtree(root)
+    root.mkdir(parents=True)
+    try:
+        subprocess.run(["rsync", "-a", "--exclude", "target", str(REPO / "crates"), str(root)], check=True)
+        shutil.copy(REPO / "Cargo.lock", root / "Cargo.lock")
+        (root / "Cargo.toml").write_text(
+            '[workspace]\nresolver = "2"\nmembers = ["crates/*"]\n[patch.crates-io]\n'
+            'indexmap = { path = "/verif/models/indexmap" }\nbytes = { path = "/verif/models/bytes" }\n')
+        (root / ".cargo").mkdir()
+        (root / ".cargo" / "config.toml").write_text(
+            '[net]\noffline = true\n[build]\nrustflags = ["--cfg", "tokio_unstable"]\n')
+        env = dict(ENV)
+        env["CARGO_TARGET_DIR"] = str(VERIF / ".cache" / "validate-target")
+        t0 = time.time()
+        p = subprocess.run(["cargo", "test", "--offline", "--workspace", "--no-fail-fast"], cwd=root, env=env,
+                           stdout=subprocess.PIPE, stderr=subprocess.STDOUT, text=True)
+        passed = failed = 0
+        for ln in p.stdout.splitlines():
+            if ln.startswith("test result:"):
+                parts = ln.split()
+                passed += int(parts[3])
+                failed += int(parts[5])
+        log("repo suites against indexmap+bytes models: passed=%d failed=%d (%.0fs)" % (passed, failed, time.time() - t0))
+        if failed or passed < 150 or p.returncode != 0:
+            sys.stdout.write(p.stdout[-4000:])
+            return False
+        # feature-gated suites of turmoil (fs / io_uring / barriers) as well
+        p = subprocess.run(["cargo", "test", "--offline", "-p", "turmoil", "--features",
+                            "unstable-fs,unstable-io_uring,unstable-barriers", "--no-fail-fast"], cwd=root, env=env,
+                           stdout=subprocess.PIPE, stderr=subprocess.STDOUT, text=True)
+        passed = failed = 0
+        for ln in p.stdout.splitlines():
+            if ln.startswith("test result:"):
+                parts = ln.split()
+                passed += int(parts[3])
+                failed += int(parts[5])
+        log("turmoil feature-gated suites against the models: passed=%d failed=%d" % (passed, failed))
+        if failed or p.returncode != 0:
+            sys.stdout.write(p.stdout[-4000:])
+            return False
+        return True
+    finally:
+        shutil.rmtree(root, ignore_errors=True)
+
+
+def validate_tokio_model():
+    d = VERIF / "models" / "validate_tokio"
+    if not d.exists():
+        return True
+    env = dict(ENV)
+    env["CARGO_TARGET_DIR"] = str(VERIF / ".cache" / "validate-tokio-target")
+    p = subprocess.run(["cargo", "test", "--offline"], cwd=d, env=env, stdout=subprocess.PIPE,
+                       stderr=subprocess.STDOUT, text=True)
+    ok = p.returncode == 0 and "test result: ok" in p.stdout
+    log("tokio model differential test vs real tokio:", "ok" if ok else "FAILED")
+    if not ok:
+        sys.stdout.write(p.stdout[-4000:])
+    return ok
+
+
+def warm_kani():
+    import vcheck
+    hs = vcheck.discover()
+    seen = {}
+    for h in hs:
+        key = (h["crate"], h["features"])
+        if key not in seen:
+            seen[key] = h
+    base = Path("/var/tmp/turmoil-verif.setup.%d" % os.getpid())
+    try:
+        for (crate, feats), h in seen.items():
+            g = "core" if crate == "turmoil" else "leaf"
+            ov = base / g
+            if not ov.exists():
+                members = {crate} | ({"turmoil-fs"} if crate == "turmoil-io-uring" else set())
+                if g == "leaf":
+                    members = {x["crate"] for x in hs if x["crate"] != "turmoil"}
+                vcheck.make_overlay(ov, sorted(members), tokio_model=(g == "core" and vcheck.tokio_model_needed("turmoil")))
+            tgt = vcheck.CACHE / ("target-%s-%s" % (crate, __import__("re").sub(r"[^a-z0-9]", "_", feats) or "default"))
+            if tgt.exists():
+                shutil.rmtree(tgt)
+            cmd = ["cargo", "kani", "-Z", "stubbing", "--only-codegen", "--harness", h["full"], "--exact",
+                   "--target-dir", str(tgt)]
+            if feats:
+                cmd += ["--features", feats]
+            t0 = time.time()
+            p = subprocess.run(cmd, cwd=ov / "crates" / crate, env=ENV, stdout=subprocess.PIPE,
+                               stderr=subprocess.STDOUT, text=True)
+            log("warm %s [%s]: rc=%d %.0fs" % (crate, feats, p.returncode, time.time() - t0))
+            if p.returncode != 0:
+                shutil.rmtree(tgt, ignore_errors=True)
+    finally:
+        shutil.rmtree(base, ignore_errors=True)
+
+
+def main():
+    (VERIF / ".cache").mkdir(exist_ok=True)
+    ok = validate_models()
+    ok = validate_tokio_model() and ok
+    if not ok:
+        log("model validation FAILED")
+        return 1
+    try:
+        warm_kani()
+    except Exception as e:  # noqa
+        log("cache warming skipped:", repr(e))
+    log("done")
+    return 0
+
+
+if __name__ == "__main__":
+    sys.exit(main())
